@@ -147,6 +147,7 @@ func specIntPayload(dst []byte, base int, it *IntItem, w int, cnt int) bool {
 //@               result == 1 + specNLB(int(item.size)*int(item.byteSize)) + int(item.size)*int(item.byteSize)
 
 //@ func (*IntItem).AppendTo
+//@ paths split
 //@ requires invIntItem(item)
 //@ modifies dst
 //@ ensures [err]    item.itemErr != nil ==> zzSameSlice(result, old(dst))
